@@ -183,6 +183,31 @@ fn check(st: &mut St, ti: usize, base: &Obs, v: &Variant, what: &str) {
     st.buf = buf;
 }
 
+fn proc_obs_lexi(input: &[u8], sizes: &[usize]) -> (bool, Obs) {
+    let mut m = Lexi;
+    let o = mc::runx::process_on::<128, _>(&mut m, input, sizes, None, Pattern::NONE, false);
+    (o.end == End::Returned, log::with(|l| Obs::from_log(l, K::TWrite)))
+}
+
+fn check_process(st: &mut St, ti: usize, base: &Obs, v: &Variant) {
+    let mut buf = std::mem::take(&mut st.buf);
+    v.render(&mut buf);
+    mc::env::cuts_up_to(buf.len(), 2, |sizes| {
+        st.variants += 1;
+        let (ok, obs) = proc_obs_lexi(&buf, sizes);
+        if ok && &obs != base {
+            let feat = vec![("variation", "single-slot-byte-through-process".to_string()), ("differs", if obs.calls != base.calls { "handlers-or-arguments" } else if obs.errs != base.errs { "errors" } else { "response" }.to_string())];
+            st.groups.add("same-meaning", &feat, (buf.len() * 1000 + sizes.len(), &buf), || {
+                (
+                    json!({"template": ti, "input": hex(&buf), "sizes": sizes}),
+                    format!("variant \"{}\" of template {} through process::<128> with read sizes {:?}: observed {} ; base rendering gives {}", show(&buf), ti, sizes, obs.show(), base.show()),
+                )
+            });
+        }
+    });
+    st.buf = buf;
+}
+
 fn base_variant(pieces: &[Piece]) -> Variant<'_> {
     let mn = pieces.iter().filter(|p| matches!(p, Piece::Mn(_))).map(|_| 0).collect();
     let ws = pieces
@@ -208,7 +233,10 @@ fn replay(path: &str) -> ! {
     let base_unsound = j["features"]["differs"] == "base-message-not-sound";
     for r in 0..2 {
         let (okb, b) = run_obs(&base);
-        let (_, o) = run_obs(&input);
+        let (_, o) = match w["sizes"].as_array() {
+            Some(sz) => proc_obs_lexi(&input, &sz.iter().map(|v| v.as_u64().unwrap() as usize).collect::<Vec<_>>()),
+            None => run_obs(&input),
+        };
         println!("round {r}: base \"{}\": {}", show(&base), b.show());
         println!("round {r}: variant \"{}\": {}", show(&input), o.show());
         bad[r] = if base_unsound {
@@ -380,6 +408,11 @@ fn main() {
                         let mut v = base_variant(pieces);
                         v.ws[s] = &two;
                         check(st, ti, base, &v, "single-slot-byte");
+                        // the same variant streamed through process with every chunking of <=2 cuts
+                        // (a read may consist of white space only)
+                        if b[0] == 0 || b[0] == 9 || b[0] == 32 || b[0] == 31 {
+                            check_process(st, ti, base, &v);
+                        }
                     }
                 }
             }
